@@ -56,7 +56,14 @@ impl Distribution for DiscreteUniform {
 
 impl Distribution1D for DiscreteUniform {
     fn update(&mut self, params: &[f64]) {
-        self.set_lower(params[0] as i64).set_upper(params[1] as i64);
+        // validate the new pair as a whole: checking each bound against the old interval would reject
+        // valid targets that lie entirely above (or below) the current bounds
+        let (lower, upper) = (params[0] as i64, params[1] as i64);
+        if lower > upper {
+            panic!("`Upper` must be larger than `lower`.");
+        }
+        self.lower = lower;
+        self.upper = upper;
     }
 }
 
